@@ -52,7 +52,7 @@ C07_ASSUME = [
 @prop('C07', 'Hash table: removed node has one owner, unreachable after a grace period', 'exploration', C07_RULE, C07_ASSUME)
 def c07(tier, seed):
     q = tier == 'quick'
-    s = 1 if q else 25
+    s = 1 if q else 10
     out = []
 
     def own(name, fl, var, rounds, ops, extra=(), cpus=6):
@@ -85,8 +85,8 @@ def c07(tier, seed):
                       ['--rounds=%d' % (rounds * s), '--upd=3', '--upd-ops=2500', '--pop-hi=900', '--tun-commit-order=2',
                        '--tun-part-order=3'], cpus=5, scale=s))
     if not q:
-        own('own-mb', 'mb', 'plain', 12, 25000)
-        own('own-bp', 'bp', 'plain', 12, 25000)
+        own('own-mb', 'mb', 'plain', 6, 25000)
+        own('own-bp', 'bp', 'plain', 4, 25000)
         own('own-qsbr-tsan', 'qsbr', 'tsan', 3, 4000)
         own('own-memb-builtins', 'memb', 'builtins', 12, 25000)
         own('own-memb-stock', 'memb', 'plain', 12, 25000, ['--tun-commit-order=10', '--tun-part-order=12'])
@@ -133,7 +133,7 @@ C09_ASSUME = [
 @prop('C09', 'Hash table resize terminates, preserves contents, respects bucket bounds', 'exploration', C09_RULE, C09_ASSUME)
 def c09(tier, seed):
     q = tier == 'quick'
-    s = 1 if q else 20
+    s = 1 if q else 10
     out = []
 
     def rz(name, fl, var, rounds, calls, extra=(), cpus=6, low=True):
